@@ -4,7 +4,7 @@
    `refs_local_final`).  One boolean guard on the chunk - the guard of C05 alone:
      bind_guard W P = in_fragment P && laid2_b W P && no_repoint P
    (the parser shape tb_shape and the layout laid_b W of the traversal theorem follow from it: Proofs/ComposeBindLaid.v)
-   plus the class guards: classB_ok per occurrence (B1 B2 B3 B5 tags), classA_ok per name (B3 B4 tags).
+   plus the class guards: classB_ok per occurrence (B1 B2 B3 tags; B5 is repaired: no tag), classA_ok per name (B3 B4 tags).
    Results (all cursors columns sc <= col <= ec of the occurrence, both ends):
      - position_is_binder     : resolve_at answers the declaration Lua binds the occurrence to;
      - refs_local_closed      : references / rename = the binder's occurrence set of the variable (In-iff, NoDup);
@@ -38,7 +38,7 @@ Qed.
 Lemma bind_guard_core W P : bind_guard W P = core_guards_b W P.
 Proof. reflexivity. Qed.
 
-(* per occurrence: no class tag on it (B1 B2 B3 B5), no B3 / B4 tag on any occurrence of its name *)
+(* per occurrence: no class tag on it (B1 B2 B3), no B3 / B4 tag on any occurrence of its name *)
 Definition occ_guard (P : block) (o : socc) : bool := classB_ok o && classA_ok (bind_file P) (s_name o).
 
 (* per variable (declaration Loc d): every occurrence the binder gives d satisfies occ_guard *)
